@@ -5,6 +5,12 @@ case: {corpus_names: true} -> names of the shipped tests/annet/test_patch sample
  or   {vendor, [hw], patch: PatchTree json (row, child, context) | pipeline: {patching, ordering, old, new},
        deploying: text | None (= shipped rulebook of the hardware), combos: [[do_commit, do_finalize], ...],
        atoms: [hw flag paths], opaque: [python source of opaque atoms]}
+ or   {dcpipe: {patching, ordering, old, new}, vendor, deploying: text}
+        -> what CliDeployerJob.parse_result computes with and without --dont-commit:
+           {patch_t, patch_f: PatchTree json of api._diff_and_patch(..., do_commit=True / False) | None (AssertionError),
+            paths_f: make_formatter(indent="").cmd_paths(patch_f) keys,
+            runs: [{df, cmds: [command text] | err}]  apply_deploy_rulebook(hw, cmd_paths(patch_f), do_finalize=df, do_commit=False)}
+ optional key `patch_dc` (with `pipeline`): the do_commit flag _diff_and_patch builds the patch with (default true)
  or   {render: vendor}  -> the Mako-rendered shipped deploy rulebook text and what it compiles to
  or   {dlg: deploy rulebook text (one top-level rule with dialog:/ignore: children), vendor, contents: [str]}
         -> {dialogs: [[question text, answer, send_nl]], ignore: [text], runs: [{content, answer | None, hits, ign}]}
@@ -135,6 +141,43 @@ def corpus_patch(smp, hw):
     return patching.make_patch(pre=patching.make_pre(diff), rb=rb, hw=hw, add_comments=False)
 
 
+def dcpipe(case):
+    """the data flow of `annet deploy` / `annet deploy --dont-commit` (CliDeployerJob.parse_result): the patch is built by
+    _diff_and_patch with do_commit = not dont_commit, its cmd_paths go to apply_deploy_rulebook with the same flag"""
+    res = {}
+    vendor = case["vendor"]
+    hw = HardwareView(case.get("hw") or HW[vendor], "")
+    pc = case["dcpipe"]
+    prb = {"patching": compile_patching_text(pc["patching"], vendor),
+           "ordering": compile_ordering_text(pc.get("ordering", ""), vendor),
+           "deploying": compile_deploying_text(case.get("deploying") or "", vendor)}
+    OVERRIDE["rb"] = prb
+    patches = {}
+    for name, dc in (("patch_t", True), ("patch_f", False)):
+        try:
+            _, p = api._diff_and_patch(SimpleNamespace(hw=hw), to_odict(pc["old"]), to_odict(pc["new"]), None, None,
+                                       False, do_commit=dc, rb=prb)
+            patches[name] = p
+            res[name] = patch_json(p)
+        except AssertionError:
+            res[name] = None
+    res["paths_f"] = []
+    res["runs"] = []
+    if res["patch_f"] is not None:
+        fmt0 = registry_connector.get()[vendor].make_formatter(indent="")
+        res["paths_f"] = [list(k) for k in fmt0.cmd_paths(patches["patch_f"]).keys()]
+        for df in (False, True):
+            r = {"df": df}
+            try:
+                cl = deploy.apply_deploy_rulebook(hw, fmt0.cmd_paths(patches["patch_f"]), do_finalize=df, do_commit=False)
+                r["cmds"] = [c.cmd for c in cl]
+            except Exception as e:  # noqa
+                msg = str(e)
+                r["err"] = "send_nl" if msg == "not supported false send_nl" else (type(e).__name__ + ":" + msg[:200])
+            res["runs"].append(r)
+    return res
+
+
 def one(case):
     res = {}
     try:
@@ -176,6 +219,8 @@ def one(case):
             res["text"] = text
             res["compiled"] = rules_json(compile_deploying_text(text, hw.vendor))
             return res
+        if "dcpipe" in case:
+            return dcpipe(case)
         vendor = case["vendor"]
         hw = HardwareView(case.get("hw") or HW[vendor], "")
         res["hw_vendor"] = hw.vendor
@@ -193,7 +238,7 @@ def one(case):
             OVERRIDE["rb"] = prb
             try:
                 _, p = api._diff_and_patch(SimpleNamespace(hw=hw), to_odict(pc["old"]), to_odict(pc["new"]), None, None,
-                                           False, rb=prb)
+                                           False, do_commit=bool(case.get("patch_dc", True)), rb=prb)
             except AssertionError:
                 res["skip"] = "AssertionError"
                 return res
